@@ -229,6 +229,85 @@ func c05(c *core.Ctx) {
 			c05Judge(c, f, "bitflip", true)
 		}
 	})
+	// (a3) the message the setter was applied to, corrupted in place (no re-decode), for buffers with 0..13 spare bytes;
+	// and the batch helper Message.Check(integrity, Fingerprint) on re-decoded corrupted copies
+	c.Section("in-place-and-batch-check", c.N(120, 20000), func(i int64, r *gen.Rand) {
+		key := r.Bytes(r.Intn(30))
+		mi := stun.MessageIntegrity(key)
+		setters := []stun.Setter{stun.NewType(stun.Method(r.Intn(0x1000)), stun.MessageClass(r.Intn(4))), stun.NewTransactionIDSetter(r.TID()),
+			stun.RawAttribute{Type: 0x8022, Value: r.Bytes(r.Intn(24))}}
+		withMI := i%2 == 0
+		if withMI {
+			setters = append(setters, mi)
+		}
+		probe := new(stun.Message)
+		_ = probe.Build(setters...)
+		spare := int(i/2) % 14 // spare capacity left when the FINGERPRINT setter runs
+		m := &stun.Message{Raw: make([]byte, 0, len(probe.Raw)+spare)}
+		if i%5 == 4 {
+			m = new(stun.Message)
+		}
+		if err := m.Build(append(setters, stun.Fingerprint)...); err != nil {
+			c.Violate("build", "build", err.Error())
+
+			return
+		}
+		if err := stun.Fingerprint.Check(m); err != nil {
+			c.Violate("fingerprinted-does-not-verify", "fingerprinted-does-not-verify", map[string]interface{}{"raw_hex": core.Hex(m.Raw), "err": err.Error()})
+
+			return
+		}
+		wire := append([]byte(nil), m.Raw...)
+		n := len(m.Raw)
+		for bit := 0; bit < n*8; bit++ {
+			pos := bit / 8
+			if pos >= n-8 && pos < n-4 {
+				continue // the attribute's own header is not re-read without a decode
+			}
+			m.Raw[pos] ^= 1 << uint(bit%8)
+			c.Eval(1)
+			if err := stun.Fingerprint.Check(m); err == nil {
+				c.Violate("corruption-undetected", "corruption-undetected:in-place", map[string]interface{}{
+					"problem": "bit flipped in the raw bytes of the very message the setter was applied to; Fingerprint.Check still passes", "bit": bit, "spare_capacity_at_setter": spare, "raw_hex": core.Hex(wire)})
+				m.Raw[pos] ^= 1 << uint(bit%8)
+
+				return
+			}
+			m.Raw[pos] ^= 1 << uint(bit%8)
+		}
+		c.Count("in_place_flips", int64(n*8-32))
+		if !withMI {
+			return
+		}
+		dec := new(stun.Message)
+		if err := stun.Decode(wire, dec); err != nil || dec.Check(mi, stun.Fingerprint) != nil || dec.Check(stun.Fingerprint, mi) != nil {
+			c.Violate("fingerprinted-does-not-verify", "batch-check-intact", map[string]interface{}{"raw_hex": core.Hex(wire)})
+
+			return
+		}
+		for bit := 0; bit < n*8; bit++ {
+			f := append([]byte(nil), wire...)
+			f[bit/8] ^= 1 << uint(bit%8)
+			if stun.Decode(f, dec) != nil {
+				continue
+			}
+			c.Eval(1)
+			order := "Check(integrity, Fingerprint)"
+			err := dec.Check(mi, stun.Fingerprint)
+			if err != nil && bit%2 == 1 {
+				order = "Check(Fingerprint, integrity)"
+				err = dec.Check(stun.Fingerprint, mi)
+			}
+			if err == nil {
+				c.Violate("corruption-undetected", "corruption-undetected:batch-check", map[string]interface{}{
+					"problem": order + " passes on a message with one flipped bit", "bit": bit, "input_hex": core.Hex(f), "key_hex": core.Hex(key)})
+
+				return
+			}
+		}
+		c.Count("batch_check_flips", int64(n*8))
+		c.Distinct(gen.HashBytes(wire))
+	})
 	// (b) bursts of up to 32 bits, in the CRC's own (transmission, LSB-first) bit order
 	c.Section("bursts", c.N(400, 200000), func(_ int64, r *gen.Rand) {
 		wire := c05Make(c, r, 200)
